@@ -76,9 +76,7 @@ Definition highest_set_bit (b : bf) : option N := hsb_go (bf_bytes b) 0 None.
 
 Definition is_zero (b : bf) : bool := forallb (fun x => x =? 0) (bf_bytes b).
 
-Fixpoint popcount_fuel (fuel : nat) (b : N) : N :=
-  match fuel with O => 0 | S f => (b mod 2) + popcount_fuel f (b / 2) end.
-Definition count_ones8 (b : N) : N := popcount_fuel 8 b.
+(* [count_ones8]: RustSem.v *)
 Definition num_set_bits (b : bf) : N := sumN (map count_ones8 (bf_bytes b)).
 
 (** [iter()]: [get(i)] for i = 0, 1, .. until the first [Err]. *)
@@ -117,12 +115,7 @@ Definition shift_up (b : bf) (n : N) : outcome bf :=
   else Err.
 
 (** [PartialEq]: [len == len && bytes == bytes]. *)
-Fixpoint bytes_eqb (a b : bytes) : bool :=
-  match a, b with
-  | [], [] => true
-  | x :: ar, y :: br => (x =? y) && bytes_eqb ar br
-  | _, _ => false
-  end.
+(* [bytes_eqb]: RustSem.v *)
 Definition bf_eqb (a b : bf) : bool := (bf_len a =? bf_len b) && bytes_eqb (bf_bytes a) (bf_bytes b).
 
 (** [Hash]: what is fed to the hasher: the byte slice (length-prefixed by std), then [len]. *)
